@@ -303,7 +303,13 @@ func Gen(g *common.Gen, p Profile) {
 		ls := ""
 		if r.Intn(100) < p.LinkSvc {
 			ls = " ls"
-			g.Stat("ingress-link-service")
+			if r.Chance(1, 2) {
+				// several forwarding threads: the real face-layer dispatch decides the thread(s)
+				ls = fmt.Sprintf(" ls %d", r.Range(2, 4))
+				g.Stat("ingress-link-service-multithread")
+			} else {
+				g.Stat("ingress-link-service")
+			}
 		} else {
 			g.Stat("ingress-direct")
 		}
